@@ -184,7 +184,7 @@ T["T5"] = (doc(
 T["T6"] = (doc(
     types=F("FC_T", 32, extra=DEFCAL(POLY((1.0, 0), (2.0, 1))))
     + I("SELF_T", 8, "signed", CTXCAL((CMPLIST(CMP("SELF", "0", "&lt;"), CMP("SELF", "-100", "&gt;=")), POLY((0.0, 0), (-1.0, 1))),
-                                      (CMP("SELF", "100", "&gt;"), SPLINE([(100, 0), (127, 27)], 1)))
+                                      (CMP("SELF", "-50", "&gt;"), SPLINE([(-50, -1), (100, 0), (127, 27)], 1)))     # overlaps the first context on (-50, 0)
         + DEFCAL(SPLINE([(-128, -1), (0, 0), (127, 1)], 0, "true")))
     + '<xtce:RelativeTimeParameterType name="RT_T"><xtce:Encoding units="ms" offset="-5"><xtce:IntegerDataEncoding sizeInBits="4"/></xtce:Encoding></xtce:RelativeTimeParameterType>'
     + ('<xtce:EnumeratedParameterType name="EC_T"><xtce:IntegerDataEncoding sizeInBits="4" encoding="signed">' + DEFCAL(POLY((3.0, 1)))
@@ -193,6 +193,21 @@ T["T6"] = (doc(
     params=[("FC", "FC_T"), ("SELF", "SELF_T"), ("RT", "RT_T"), ("EC", "EC_T")],
     root_entries=[], children=cont("P6", ["SELF", "RT", "EC", "FC"], "CCSDSPacket", CMP("APID", "6"))),
     6 + 6, "8+4+4+32 = 48 bits")
+
+
+# T7 (object identity): SHARED is nested by OUTER1 BEFORE its own definition (forward reference), nested again by OUTER2, and is also the base of
+#     CHILD_OF_SHARED; parameters shared between containers
+T["T7"] = (doc(
+    types=I("U4_T", 4) + I("U8_T", 8),
+    params=[("P1", "U4_T"), ("P2", "U4_T"), ("P3", "U8_T"), ("P4", "U8_T")],
+    root_entries=[],
+    children=cont("OUTER1", ["P1", "@SHARED"], "CCSDSPacket", CMP("APID", "1"))
+    + cont("SHARED", ["P2"], abstract="false")
+    + cont("OUTER2", ["@SHARED", "P3", "@SHARED"], "CCSDSPacket", CMP("APID", "2"))
+    + cont("CHILD_OF_SHARED", ["P3", "P4"], "SHARED", CMP("P2", "1"))
+    + cont("OUTER3", ["P4", "@OUTER2LIKE"], "CCSDSPacket", CMP("APID", "3"))
+    + cont("OUTER2LIKE", ["P1", "@SHARED"])),
+    6 + 2, "identity / inheritor consistency under forward references")
 
 
 def bundled(name):
@@ -213,7 +228,8 @@ def get(name):
 # ------------------------------------------------------------------------------------------------ generated string / binary family (C07)
 CODECS = ["US-ASCII", "ISO-8859-1", "Windows-1252", "UTF-8", "UTF-16", "UTF-16LE", "UTF-16BE", "UTF-32", "UTF-32LE", "UTF-32BE"]
 DELIMS = ["whole", "term", "lead8", "lead16"]
-SOURCES = ["fixed", "fixed-odd", "lookup", "ref-raw-adj", "ref-cal"]
+# "ref-raw-of-cal": the RAW value of a parameter that also has a calibrator (raw 0 <-> calibrated 16), through an adjuster
+SOURCES = ["fixed", "fixed-odd", "lookup", "ref-raw-adj", "ref-cal", "ref-raw-of-cal"]
 
 
 def _term_hex(codec, order):
@@ -235,6 +251,8 @@ def _size_source(src, fixed_bits):
         return DYN("LENF", "false", 8, -8), None
     if src == "ref-cal":
         return DYN("LENF", "true"), None
+    if src == "ref-raw-of-cal":
+        return DYN("LENF", "false", 8, 0), None
     raise KeyError(src)
 
 
@@ -254,7 +272,8 @@ def string_template(codec, delim, src, off, order="mostSignificantByteFirst"):
     else:
         size = f"<xtce:Variable>{dyn}{extra}</xtce:Variable>"
     o = order if codec in ("UTF-16", "UTF-32") else None
-    types = (I("PAD_T", max(off, 1)) + I("LENF_T", 4, "unsigned", DEFCAL(POLY((8, 1))) if src == "ref-cal" else "") + I("U4_T", 4)
+    lcal = DEFCAL(POLY((8, 1))) if src == "ref-cal" else DEFCAL(POLY((16, 0), (8, 1))) if src == "ref-raw-of-cal" else ""
+    types = (I("PAD_T", max(off, 1)) + I("LENF_T", 4, "unsigned", lcal) + I("U4_T", 4)
              + STR("S_T", size, enc=codec, order=o))
     ents = (["PAD"] if off else []) + ["LENF", "S", "TAIL"]
     xml = doc(types=types, params=[("PAD", "PAD_T"), ("LENF", "LENF_T"), ("S", "S_T"), ("TAIL", "U4_T")], root_entries=ents, children="",
@@ -271,9 +290,12 @@ def binary_template(src, off):
         size = "<xtce:DiscreteLookupList>" + DL(16, CMP("LENF", "1")) + DL(13, CMP("LENF", "8", "&gt;=")) + DL(40, CMPLIST(CMP("LENF", "2", ">="), CMP("LENF", "5", "!="))) + "</xtce:DiscreteLookupList>"
     elif src == "ref-raw-adj":
         size = DYN("LENF", "false", 3, 1)
+    elif src == "ref-raw-of-cal":
+        size = DYN("LENF", "false", 4, 0)
     else:
         size = DYN("LENF", "true")
-    types = (I("PAD_T", max(off, 1)) + I("LENF_T", 4, "unsigned", DEFCAL(POLY((8, 1))) if src == "ref-cal" else "") + I("U4_T", 4) + BIN("B_T", size))
+    lcal = DEFCAL(POLY((8, 1))) if src == "ref-cal" else DEFCAL(POLY((16, 0), (8, 1))) if src == "ref-raw-of-cal" else ""
+    types = (I("PAD_T", max(off, 1)) + I("LENF_T", 4, "unsigned", lcal) + I("U4_T", 4) + BIN("B_T", size))
     ents = (["PAD"] if off else []) + ["LENF", "B", "TAIL"]
     xml = doc(types=types, params=[("PAD", "PAD_T"), ("LENF", "LENF_T"), ("B", "B_T"), ("TAIL", "U4_T")], root_entries=ents, children="",
               root_abstract="false")
